@@ -274,7 +274,13 @@ func RAOpts(r *rand.Rand, mac refdec.MAC) []refdec.NDPOpt {
 		var a [16]byte
 		a[0], a[1], a[2], a[3] = 0x20, 0x01, 0x0d, 0xb8
 		a[5] = byte(r.Intn(256))
-		o = append(o, refdec.OptPrefixInfo(refdec.PrefixInfo{Len: 64, OnLink: r.Intn(2) == 0, Auto: r.Intn(2) == 0,
+		plen := uint8(64)
+		if r.Intn(3) == 0 {
+			// other prefix lengths, the boundaries included; with bits set beyond the prefix (receivers ignore them)
+			plen = pick(r, uint8(0), uint8(1), uint8(48), uint8(56), uint8(63), uint8(65), uint8(96), uint8(127), uint8(128))
+			r.Read(a[8:])
+		}
+		o = append(o, refdec.OptPrefixInfo(refdec.PrefixInfo{Len: plen, OnLink: r.Intn(2) == 0, Auto: r.Intn(2) == 0,
 			Valid: r.Uint32(), Preferred: r.Uint32(), Prefix: netip.AddrFrom16(a)}))
 	}
 	if r.Intn(2) == 0 {
@@ -390,7 +396,27 @@ func rrRandom(r *rand.Rand, e Env) refdec.DNSRR {
 		return refdec.DNSRR{Name: n, Type: refdec.TypeSRV, Class: 1, TTL: ttl, Target: pick(r, hostNames...)}
 	case 7:
 		txt := []byte{}
-		for _, s := range []string{"model=MacBookPro14,1", "osxvers=20", "ty=HP LaserJet", "md=Chromecast"}[:1+r.Intn(4)] {
+		strs := []string{"model=MacBookPro14,1", "osxvers=20", "ty=HP LaserJet", "md=Chromecast"}[:1+r.Intn(4)]
+		if r.Intn(2) == 0 {
+			// DNS-SD attributes recombined from the keys the handlers know and the forms RFC 6763 6.4 allows: key=value,
+			// boolean key without '=', empty value, value containing '=', missing key, empty string
+			strs = nil
+			for k := r.Intn(7); k > 0; k-- {
+				key := pick(r, "model", "ty", "DvTy", "md", "osxvers", "txtvers", "note", "")
+				val := pick(r, "1", "MacBookPro14,1", "HP LaserJet", "a=b", "")
+				switch r.Intn(5) {
+				case 0:
+					strs = append(strs, key) // boolean attribute
+				case 1:
+					strs = append(strs, key+"=")
+				case 2:
+					strs = append(strs, "")
+				default:
+					strs = append(strs, key+"="+val)
+				}
+			}
+		}
+		for _, s := range strs {
 			txt = append(txt, byte(len(s)))
 			txt = append(txt, s...)
 		}
